@@ -434,4 +434,70 @@ theorem cidr_leniency_defect :
     (parseCidr6 "fe80::/10/1".toList false).toOption.map (·.2) = some 10 ∧
     (parseCidr6 "fe80::/ 10".toList false).toOption.map (·.2) = some 10 := by decide +kernel
 
+/-! ## the repaired variants (`fixes/C16_{ip4_text,ip6_text,eth_text,cidr,eth_seq}.diff`): accept ⇔ well-formed
+
+The harness reads off the source which repairs the tree under test has and drives the matching model functions
+(`parse6S`, `ethOfTextS`, `parseCidrS`, `parseCidr6SWith`, `ethOfSeqS`); the theorems above about `parse6`, `ethOfText`, … describe
+the code without them.  The IPv4 text repair needs no model variant: with it the code's recogniser *is* the canonical one
+the model specifies, and `ip4_parse_spec` is its acceptance theorem (accepted ⇔ an `inet_ntoa` text). -/
+
+/-- IPv6 text, repaired: `IPAddr6(text)` returns `a` **iff** `a` is what the text denotes under RFC 4291 §2.2 — nothing
+malformed is accepted any more (D15a–h), nothing valid is refused any more (`unsupported6` is gone), and the value is the
+denotation. -/
+theorem ip6_strict_iff (s : Str) (a : Bytes) : parse6S s = .ok a ↔ denote6 s = some a := parse6S_iff s a
+
+/-- the print → parse round trip holds for the repaired parser as well, for every address and print option -/
+theorem ip6_strict_roundtrip (a : Bytes) (ha : a.length = 16) (zeroDrop sectionDrop : Bool) (ipv4 : Option Bool) :
+    parse6S (toStr6 a zeroDrop sectionDrop ipv4) = .ok a := parse6S_toStr6 a ha zeroDrop sectionDrop ipv4
+
+example : parse6S "1:2:3".toList = .error .runtime ∧ parse6S "1:::2".toList = .error .runtime ∧ parse6S "1::2:".toList = .error .runtime ∧
+    parse6S "+1::".toList = .error .runtime ∧ parse6S "0x1::".toList = .error .runtime ∧ parse6S "1_0::".toList = .error .runtime ∧
+    parse6S " 1::".toList = .error .runtime ∧ parse6S "::00001".toList = .error .runtime ∧ parse6S "::1.2.3".toList = .error .os ∧
+    parse6S "1:2:3:4:5:6:7::".toList = .ok [0, 1, 0, 2, 0, 3, 0, 4, 0, 5, 0, 6, 0, 7, 0, 0] ∧
+    parse6S "::2:3:4:5:6:1.2.3.4".toList = .ok [0, 0, 0, 2, 0, 3, 0, 4, 0, 5, 0, 6, 1, 2, 3, 4] := by decide +kernel
+
+/-- EthAddr text, repaired: the constructor returns `b` iff the text denotes `b` (`ethDenote`) — the `int()` leniency, groups
+above `ff` (C16-K5, K6) and the refused 12-character loose form are gone. -/
+theorem eth_strict_iff (s : Str) (b : Bytes) : ethOfTextS s = .ok b ↔ ethDenote s = some b := by
+  have h := ethOfTextS_iff s
+  cases hs : ethOfTextS s with
+  | ok x => rw [hs] at h; simp only [okOpt] at h; rw [← h]; constructor <;> intro e <;> injection e with e <;> rw [e]
+  | error e => rw [hs] at h; simp only [okOpt] at h; rw [← h]; constructor <;> intro e <;> cases e
+
+example : ethOfTextS "0x1:2:3:4:5:6".toList = .error .runtime ∧ ethOfTextS "+1+2+3+4+5+6".toList = .error .runtime ∧
+    ethOfTextS "100:0:0:0:0:0".toList = .error .runtime ∧ ethOfTextS "1:2:3:4:5:67".toList = .ok [1, 2, 3, 4, 5, 0x67] ∧
+    ethOfTextS "01-23-45-67-89-AB".toList = .ok [0x01, 0x23, 0x45, 0x67, 0x89, 0xab] := by decide +kernel
+
+/-- EthAddr from a sequence, repaired: accepted iff exactly six items in `0..255`, which are the bytes (C16-K11). -/
+theorem eth_seq_strict_iff (l : List Int) (b : Bytes) :
+    ethOfSeqS l = .ok b ↔ l.length = 6 ∧ l = b.map fun x => (x.toNat : Int) := ethOfSeqS_iff l b
+
+example : ethOfSeqS [1, 2, 3] = .error .runtime ∧ ethOfSeqS [1, 2, 3, 4, 5, 6] = .ok [1, 2, 3, 4, 5, 6] := by decide
+
+/-- `parse_cidr`, repaired (C16-K7, K9): what it accepts is well-formed CIDR text (`a.b.c.d`, `a.b.c.d/digits ≤ 32`,
+`a.b.c.d/contiguous netmask`); on well-formed text it computes what the original does (so `cidr_text` and
+`classful_inference` carry over) and, with `allow_host`, accepts it. -/
+theorem cidr_strict (s : Str) (infer allowHost : Bool) :
+    (∀ r, parseCidrS s infer allowHost = .ok r → CidrWF4 s) ∧
+    (CidrWF4 s → parseCidrS s infer allowHost = parseCidr s infer allowHost ∧ ∃ r, parseCidrS s infer true = .ok r) :=
+  ⟨fun r h => parseCidrS_wf s infer allowHost r h, fun h => ⟨parseCidrS_eq s h infer allowHost, parseCidrS_accepts s h infer⟩⟩
+
+/-- `IPAddr6.parse_cidr` with the CIDR and the IPv6 text repairs (C16-K8, K10): accepted ⇒ `addr`, `addr/digits ≤ 128` or
+`addr/contiguous netmask` with RFC 4291 texts; and every such text is accepted (with `allow_host`) with the address its
+left part denotes and the prefix length it states. -/
+theorem cidr6_strict (s : Str) (allowHost : Bool) :
+    (∀ r, parseCidr6SWith parse6S s allowHost = .ok r → CidrWF6 s) ∧
+    (CidrWF6 s →
+      (∃ a, denote6 s = some a ∧ parseCidr6SWith parse6S s true = .ok (a, 128)) ∨
+      (∃ t D a, s = t ++ '/' :: D ∧ denote6 t = some a ∧ parseCidr6SWith parse6S s true = .ok (a, foldDig 10 0 D)) ∨
+      (∃ t m a len, s = t ++ '/' :: m ∧ denote6 t = some a ∧ parseCidr6SWith parse6S s true = .ok (a, len))) :=
+  ⟨fun r h => parseCidr6S_wf s allowHost r h, parseCidr6S_accepts s⟩
+
+example : parseCidrS "10.0.0.0/8/9".toList true false = .error .runtime ∧ parseCidrS "10.0.0.0/ 8".toList true false = .error .os ∧
+    parseCidrS "10.0.0.0/+0_8".toList true false = .error .os ∧ parseCidrS "10.0.0.0/08".toList true false = .ok (ip4OfBytes 10 0 0 0, 8) ∧
+    parseCidrS "10.0.0.0/255.0.0.0".toList true false = .ok (ip4OfBytes 10 0 0 0, 8) ∧
+    (parseCidr6SWith parse6S "fe80::/10/1".toList false).toOption = none ∧ (parseCidr6SWith parse6S "fe80::/ 10".toList false).toOption = none ∧
+    (parseCidr6SWith parse6S "fe80::/10".toList false).toOption.map (·.2) = some 10 ∧
+    (parseCidr6SWith parse6S "fe80::/ffc0::".toList false).toOption.map (·.2) = some 10 := by decide +kernel
+
 end Pox.C16
